@@ -66,6 +66,39 @@ M3 = """program main
 end program main
 """
 
+M5 = """module m5
+  implicit none
+  private
+  public :: ext_sub
+  interface
+    subroutine ext_sub(a)
+      integer :: a
+    end subroutine ext_sub
+    subroutine ext_hidden(a)
+      integer :: a
+    end subroutine ext_hidden
+  end interface
+end module m5
+module m6
+  implicit none
+  interface
+    subroutine ext6_priv(a)
+      integer :: a
+    end subroutine ext6_priv
+    subroutine ext6_pub(a)
+      integer :: a
+    end subroutine ext6_pub
+  end interface
+  private :: ext6_priv
+end module m6
+program p5
+  use m5
+  use m6
+  implicit none
+  call ext
+end program p5
+"""
+
 M4 = """module m4
   implicit none
   integer :: xval = 1
@@ -90,7 +123,7 @@ subroutine s3()
 end subroutine s3
 """
 
-USER_NAMES = {"xval", "yval", "aval", "bval", "cval", "m4", "s1", "s3","pub_alpha", "pub_beta", "priv_gamma", "t1", "t2", "comp_x", "comp_hidden", "comp_y", "bind_f", "pub_sub", "pub_fun",
+USER_NAMES = {"ext_sub", "ext_hidden", "ext6_priv", "ext6_pub", "m5", "m6", "p5", "xval", "yval", "aval", "bval", "cval", "m4", "s1", "s3","pub_alpha", "pub_beta", "priv_gamma", "t1", "t2", "comp_x", "comp_hidden", "comp_y", "bind_f", "pub_sub", "pub_fun",
               "priv_sub", "m2_var", "pu_local_mod", "s2", "arg_one", "loc_value", "pu_inner", "obj", "ren_beta", "m1", "m2",
               "main", "zz", "self", "n"}
 
@@ -109,6 +142,8 @@ PROBES = [
     ("main.f90", 7, "zz = pub_", {"pub_alpha", "pub_beta", "pub_sub", "pub_fun"}, {"priv_gamma", "priv_sub"}),
     ("main.f90", 8, "zz = priv_", set(), {"priv_gamma", "priv_sub"}),
     ("main.f90", 9, "zz = m2_", set(), {"m2_var"}),
+    # members of unnamed interface blocks: accessibility by the default of the module and PUBLIC/PRIVATE statements
+    ("m5.f90", 29, "call ext", {"ext_sub", "ext6_pub"}, {"ext_hidden", "ext6_priv"}),
     # one entity under several local names; an entity renamed away without ONLY
     ("m4.f90", 7, "print *, xv", {"xval"}, set()),
     ("m4.f90", 8, "print *, av", {"aval"}, set()),
@@ -123,7 +158,7 @@ PROBES = [
 
 def run():
     from replay.harness import Workspace, session
-    files = {"m1.f90": M1, "m2.f90": M2, "main.f90": M3, "m4.f90": M4}
+    files = {"m1.f90": M1, "m2.f90": M2, "main.f90": M3, "m4.f90": M4, "m5.f90": M5}
     ws = Workspace(files)
     try:
         msgs = []
